@@ -1450,15 +1450,16 @@ int flatcc_json_printer_init_dynamic_buffer(flatcc_json_printer_t *ctx, size_t b
     memset(ctx, 0, sizeof(*ctx));
     ctx->buf = FLATCC_JSON_PRINTER_ALLOC(buffer_size);
     ctx->own_buffer = 1;
+    ctx->flush = __flatcc_json_printer_flush_dynamic_buffer;
+    if (!ctx->buf) {
+        /* No pointer arithmetic on the null buffer. */
+        RAISE_ERROR(overflow);
+        return -1;
+    }
     ctx->size = buffer_size;
     ctx->flush_size = ctx->size - FLATCC_JSON_PRINT_RESERVE;
     ctx->p = ctx->buf;
     ctx->pflush = ctx->buf + ctx->flush_size;
-    ctx->flush = __flatcc_json_printer_flush_dynamic_buffer;
-    if (!ctx->buf) {
-        RAISE_ERROR(overflow);
-        return -1;
-    }
     return 0;
 }
 
